@@ -113,4 +113,22 @@ def doRelocations (isa : String) (syms : List Sym) : List Sec → List RelocEntr
     | .error e => .error e
     | .ok secs' => doRelocations isa syms secs' rs
 
+/-! ### relocation sites (decidable side condition of the list-level theorem) -/
+
+/-- number of bytes the relocation rewrites (0 for an unknown type: such a relocation makes the link fail) -/
+def siteSize (isa : String) (r : RelocEntry) : Nat := (relocSize isa r.relocType).getD 0
+
+/-- byte `i` of section `n` belongs to the site of `r` -/
+def inSite (isa : String) (r : RelocEntry) (n : String) (i : Nat) : Prop :=
+  n = r.sect ∧ r.offset ≤ i ∧ i < r.offset + siteSize isa r
+
+/-- the sites of two relocations share no byte -/
+def sitesApart (isa : String) (a b : RelocEntry) : Bool :=
+  a.sect != b.sect || decide (a.offset + siteSize isa a ≤ b.offset) || decide (b.offset + siteSize isa b ≤ a.offset)
+
+/-- all relocation sites of the list are pairwise disjoint -/
+def sitesDisjoint (isa : String) : List RelocEntry → Bool
+  | [] => true
+  | r :: rs => rs.all (sitesApart isa r) && sitesDisjoint isa rs
+
 end Model.LinkReloc
